@@ -43,7 +43,7 @@
  * <aws/common/cbor.h>; DESIGN.md lists it in the workload, so it is declared here with the signature of the definition. */
 void aws_cbor_encoder_write_single_float(struct aws_cbor_encoder *encoder, float value);
 
-#define MAX_EL 2048
+#define MAX_EL 8192
 #define MAX_DEPTH 64
 
 enum kind {
@@ -57,14 +57,15 @@ static const char *const s_kind_name[] = {"uint", "negint", "write_float", "writ
 enum {
     F_HEAD_BOUNDARY, F_FLOAT_INT, F_FLOAT_SINGLE, F_FLOAT_DOUBLE, F_NEAR_2P63, F_NEAR_FLTMAX, F_FLOAT_SPECIAL, F_GROWTH,
     F_STR_64K, F_DEPTH8, F_DEPTH32, F_INDEF_CONTAINER, F_INDEF_STRING, F_TAG, F_MAP, F_SKIP_NESTED, F_SKIP_AFTER_PEEK,
-    F_WRONG_POP, F_RESET_REUSE, F_POP_NO_PEEK, F_TIGHT, F_WIDE_COUNT, F_INSTREAM_SKIP, F_DEPTH64
+    F_WRONG_POP, F_RESET_REUSE, F_POP_NO_PEEK, F_TIGHT, F_WIDE_COUNT, F_INSTREAM_SKIP, F_DEPTH64, F_1000_SKIPS
 };
 static const char *const s_flag_names[] = {
     "int_head_width_boundary", "write_float_as_integer", "write_float_as_single", "write_float_as_double",
     "write_float_near_2p63", "write_float_near_fltmax", "float_special_nan_inf_zero_subnormal", "encoder_buffer_growth",
     "string_ge_64k", "nesting_ge_8", "nesting_ge_32", "indefinite_container", "indefinite_string", "tag", "map",
     "skip_nested_item", "skip_after_peek", "wrong_type_pop_refused", "encoder_reset_reuse", "pop_without_peek",
-    "tight_fit_write_forced_growth", "count_head_ge_24", "in_stream_skip_then_decode", "nesting_eq_64"};
+    "tight_fit_write_forced_growth", "count_head_ge_24", "in_stream_skip_then_decode", "nesting_eq_64",
+    "one_decoder_skipped_1000_or_more_items"};
 
 struct el {
     uint8_t kind;
@@ -90,6 +91,7 @@ static uint8_t *s_arena;
 static size_t s_arena_len, s_arena_cap;
 static size_t g_off, g_cap; /* model of encoder length / capacity, used to steer string lengths and place offsets */
 static int s_budget, s_maxdepth, s_bigs;
+static bool s_skip_heavy; /* long programs: most items are skipped in-stream with ONE decoder */
 static int s_maxdepth_seen;
 
 /* junk written before aws_cbor_encoder_reset */
@@ -750,7 +752,58 @@ static void gen_tight(struct mon_rng *r) {
     }
 }
 
+/* hundreds to thousands of tiny items (tagged scalars, scalars, empty containers) for one decoder, flat or wrapped in
+ * one array: per-decoder state that only builds up over ~1000 items or skips becomes visible */
+static void gen_long(struct mon_rng *r) {
+    static const int counts[] = {990, 999, 1000, 1001, 1100, 1500, 2500, 400};
+    int n = counts[mon_below(r, sizeof(counts) / sizeof(counts[0]))];
+    if (mon_chance(r, 1, 3)) {
+        n = 300 + (int)mon_below(r, 2400);
+    }
+    unsigned wrap = (unsigned)mon_below(r, 4); /* 0,1 flat; 2 definite array; 3 indefinite array */
+    unsigned mix = (unsigned)mon_below(r, 3);  /* 0 all tagged, 1 mostly tagged, 2 mixed */
+    int depth = wrap >= 2 ? 1 : 0;
+    int me = s_nel;
+    if (wrap == 2) {
+        emit_head(K_ARRAY, AWS_CBOR_TYPE_ARRAY_START, 4, (uint64_t)n, 0);
+    } else if (wrap == 3) {
+        emit_byte(K_IARRAY, AWS_CBOR_TYPE_INDEF_ARRAY_START, 4, 31, 0, 0);
+    }
+    for (int i = 0; i < n && s_nel < MAX_EL - 16; ++i) {
+        unsigned k = mix == 0 ? 0 : mix == 1 ? (unsigned)mon_below(r, 5) : 3 + (unsigned)mon_below(r, 5);
+        if (k < 4) {
+            int t = s_nel;
+            emit_head(K_TAG, AWS_CBOR_TYPE_TAG, 6, mon_below(r, 4), depth);
+            gen_small_scalar(r, depth + 1);
+            s_el[t].end = s_nel;
+        } else if (k < 6) {
+            gen_small_scalar(r, depth);
+        } else if (k == 6) {
+            emit_head(K_ARRAY, AWS_CBOR_TYPE_ARRAY_START, 4, 0, depth);
+        } else {
+            emit_head(K_MAP, AWS_CBOR_TYPE_MAP_START, 5, 0, depth);
+        }
+    }
+    if (wrap == 2) {
+        /* the declared count must match what was emitted if the element budget cut the loop short */
+        int items = 0;
+        for (int k = me + 1; k < s_nel; k = s_el[k].end > k ? s_el[k].end : k + 1) {
+            ++items;
+        }
+        s_el[me].arg = (uint64_t)items;
+        if (head_w((uint64_t)items) != s_el[me].head) {
+            s_el[me].arg = (uint64_t)n; /* cannot happen: n <= 2700 keeps the 3-byte head unless the budget cut it below 256 */
+        }
+        s_el[me].end = s_nel;
+    } else if (wrap == 3) {
+        emit_byte(K_BREAK, AWS_CBOR_TYPE_BREAK, 7, 31, 31, 1);
+        s_el[me].end = s_nel;
+    }
+    s_skip_heavy = true;
+}
+
 static void gen_reset(void) {
+    s_skip_heavy = false;
     s_nel = 0;
     s_arena_len = 0;
     g_off = 0;
@@ -787,6 +840,10 @@ static void gen_program(struct mon_rng *r) {
         if (mon_chance(r, 1, 2)) {
             gen_scalar(r, 0, (unsigned)mon_below(r, 65));
         }
+        return;
+    }
+    if (shape == 1) {
+        gen_long(r);
         return;
     }
     s_budget = 1 + (int)mon_below(r, mon_chance(r, 1, 3) ? 8 : 60);
@@ -1473,9 +1530,13 @@ static void run_program(uint64_t case_idx) {
                       aws_cbor_decoder_get_remaining_length(dec));
         goto done;
     }
+    int prog_skips = 0;
     for (int i = 0; i < s_nel;) {
         const struct el *e = &s_el[i];
-        if (e->end > i + 1 && mon_chance(r, 1, 12)) {
+        bool nested = e->end > i + 1;
+        bool whole_wrapper = s_skip_heavy && nested && e->depth == 0 && (e->kind == K_ARRAY || e->kind == K_IARRAY);
+        if ((nested && !s_skip_heavy && mon_chance(r, 1, 12)) || (whole_wrapper && mon_chance(r, 1, 3)) ||
+            (s_skip_heavy && !whole_wrapper && e->kind != K_BREAK && mon_chance(r, nested ? 11 : 4, 12))) {
             /* skip the whole nested item in-stream, then go on decoding behind it */
             if (mon_chance(r, 1, 2)) {
                 enum aws_cbor_type t;
@@ -1499,6 +1560,9 @@ static void run_program(uint64_t case_idx) {
             }
             mon_flag(F_INSTREAM_SKIP);
             ++c_instream_skips;
+            if (++prog_skips == 1000) {
+                mon_flag(F_1000_SKIPS);
+            }
             for (int k = i; k < e->end; ++k) {
                 observe_el_flags(&s_el[k]);
             }
